@@ -32,7 +32,8 @@ SOURCES = [
     '</dtml-with><dtml-except>W</dtml-try><dtml-try><dtml-in seq sort_expr="nope4">x</dtml-in><dtml-except>S</dtml-try>',
     # (tags with options of every kind: what a tag prepares for its options at compile time serves every later rendering)
     '<dtml-var a upper spacify>|<dtml-var a url_quote newline_to_br size=20 etc="~">|&dtml.url_quote_plus.lower-a;|<dtml-var a fmt="[%s]" null="-">|'
-    '<dtml-if _u>u<dtml-else>no-u</dtml-if><dtml-in m mapping sort=k reverse><dtml-var k></dtml-in><dtml-with o><dtml-var y></dtml-with>&dtml-a;'
+    '<dtml-if _u>u<dtml-else>no-u</dtml-if><dtml-in m mapping><dtml-if j>J<dtml-elif k>K</dtml-if><dtml-unless k>no</dtml-unless></dtml-in>'
+    '<dtml-if seq>s</dtml-if><dtml-unless sx>x</dtml-unless><dtml-in m mapping sort=k reverse><dtml-var k></dtml-in><dtml-with o><dtml-var y></dtml-with>&dtml-a;'
     '<dtml-in m mapping reverse_expr="rv"><dtml-var k missing=-></dtml-in>'
     # what a sort specification resolves in the namespace of the render (a comparison function by name, the value of
     # sort_expr with options) belongs to that render only
@@ -97,10 +98,17 @@ def plain(ns):
 
 
 def outcome(t, ns):
+    """the namespace is handed over as keyword arguments and then once more as the call's mapping (the caller's own dict: it
+    must come back as it went in -- the snapshots of run_history see to that); both ways give the same text"""
     try:
-        return t(**ns)
+        r = t(**ns)
     except Exception as e:  # noqa
-        return 'EXC:' + type(e).__name__
+        r = 'EXC:' + type(e).__name__
+    try:
+        r2 = t(None, ns)
+    except Exception as e:  # noqa
+        r2 = 'EXC:' + type(e).__name__
+    return r if r2 == r else ['keywords', r, 'mapping', r2]
 
 
 _fresh = {}
